@@ -47,10 +47,10 @@ PROPS = {
 CODE_VERSION = json.load(open(os.path.join(SPEC, "code_version.json")))
 
 CONFIGS = {
-    ("C07", "quick"): dict(N=5, MaxLen=5, MaxBatch=3, MaxOps=5, MaxFaults=1, MaxCrashes=0),
-    ("C07", "thorough"): dict(N=5, MaxLen=5, MaxBatch=3, MaxOps=6, MaxFaults=2, MaxCrashes=0),
-    ("C08", "quick"): dict(N=4, MaxLen=4, MaxBatch=2, MaxOps=4, MaxFaults=0, MaxCrashes=2),
-    ("C08", "thorough"): dict(N=5, MaxLen=5, MaxBatch=3, MaxOps=5, MaxFaults=1, MaxCrashes=2),
+    ("C07", "quick"): dict(N=5, MaxLen=5, MaxBatch=3, MaxOps=5, MaxFaults=1, MaxCrashes=0, MaxLegacy=1),
+    ("C07", "thorough"): dict(N=5, MaxLen=5, MaxBatch=3, MaxOps=6, MaxFaults=2, MaxCrashes=0, MaxLegacy=1),
+    ("C08", "quick"): dict(N=4, MaxLen=4, MaxBatch=2, MaxOps=4, MaxFaults=0, MaxCrashes=2, MaxLegacy=0),
+    ("C08", "thorough"): dict(N=5, MaxLen=5, MaxBatch=3, MaxOps=5, MaxFaults=1, MaxCrashes=2, MaxLegacy=1),
 }
 
 ASSUMPTIONS = [
@@ -70,8 +70,8 @@ def label(act):
         s += "(%d)" % len(act.get("batch", []))
     elif s == "RollbackB":
         s += "(%d)" % act.get("n", 0)
-    elif s in ("Reopen", "Recover") and act.get("n") == 1:
-        s += "(asserted)"
+    elif s in ("Reopen", "Recover") and act.get("n") in (1, 2, 3):
+        s += {1: "(asserted)", 2: "(mismatching assertion)", 3: "(assertion above tip)"}[act.get("n")]
     stop = act.get("stop", "none")
     if stop != "none":
         s += "[%s%s]" % (stop, act.get("sn", ""))
